@@ -193,7 +193,7 @@ class Indicator(ABC):
         for index in range(self._find_calc_index(), len(self.candles)):
             self._set_active_index(index)
 
-            if self.candles[index].indicators.get(self.name) is not None:
+            if self._readings(self.candles[index]).get(self.name) is not None:
                 continue
 
             reading = round_values(self._calculate_reading(index=index), round_by=self.round_value)
@@ -222,20 +222,18 @@ class Indicator(ABC):
         """Optimisation method, to find where to start calculating the indicator from
         Searches from newest to oldest to find the first candle without the indicator
         """
-        if len(self.candles) == 0 or (
-            self.name not in self.candles[0].indicators
-            and self.name not in self.candles[0].sub_indicators
-        ):
+        if len(self.candles) == 0 or self.name not in self._readings(self.candles[0]):
             return 0
 
         for index in range(len(self.candles) - 1, 0, -1):
-            if (
-                self.name in self.candles[index].indicators
-                or self.name in self.candles[index].sub_indicators
-            ):
+            if self.name in self._readings(self.candles[index]):
                 return index + 1
 
         return 0
+
+    def _readings(self, candle: Candle) -> dict:
+        """The dictionary of the candle this indicator writes its readings to"""
+        return candle.sub_indicators if self._sub_indicator else candle.indicators
 
     def _set_active_index(self, index: int):
         self._active_index = index
@@ -307,11 +305,9 @@ class Indicator(ABC):
 
     def purge(self):
         """Remove this indicator value from all Candles"""
-        self._candles.purge(
-            {self.name}
-            | {indicator.name for indicator in self.sub_indicators.values()}
-            | {indicator.name for indicator in self.managed_indicators.values()}
-        )
+        for indicator in [self, *self.sub_indicators.values(), *self.managed_indicators.values()]:
+            for candle in self.candles:
+                indicator._readings(candle).pop(indicator.name, None)
 
     def recalculate(self):
         """Re-calculate this indicator value for all Candles"""
